@@ -91,6 +91,9 @@ def sx_call(f, *a, **k):
             key = mod + ':' + q
             COUNTS[key] = COUNTS.get(key, 0) + 1
     s = getattr(f, '__self__', None)
+    if f is str and len(a) == 1 and not k and getattr(type(a[0]), '__module__', '').startswith('nptdms'):
+        r = type(a[0]).__str__(a[0])          # str() insists on a real str; the object may render symbolically
+        return r if isinstance(r, SymStr) else str(r)
     if not _has_sym(a, k) and not isinstance(s, _SYM):
         return f(*a, **k)
     for m in EXTRA:
